@@ -37,10 +37,16 @@ CONTAINERS = {
     "ul": ("list", "int"),
     "ud": ("dict", "str", "int"),
     "us": ("set", "int"),
+    # on an object of a class built per run: a Dict whose value class is named by a
+    # string (resolved at the first store); a bounded List whose implicit default is
+    # too short (unreadable until a legal list is assigned)
+    "dn": ("dict", "item", "item2"),
+    "lb": ("list", "int"),
 }
 UNAMES = ("ul", "ud", "us")
+FNAMES = ("dn", "lb")
 TARGETS = ["li", "li", "li", "lc", "ls", "ll", "ll[]", "lk", "lk", "ln", "di",
-           "dl", "dl[]", "si", "sc", "ul", "ud", "us"]
+           "dl", "dl[]", "si", "sc", "ul", "ud", "us", "dn", "dn", "lb"]
 
 LIST_OPS = [k for k in c05.OPS]
 LIST_OPS_NOSORT = [k for k in c05.OPS if k != "sort"]
@@ -77,6 +83,10 @@ def conv(kind, v):
         from ..zoo04 import Item
         if v is None or isinstance(v, Item):
             return v
+    elif kind == "item2":
+        from ..zoo04 import Item2
+        if v is None or isinstance(v, Item2):
+            return v
     else:
         raise AssertionError(kind)
     raise ModelTraitError()
@@ -99,6 +109,9 @@ def predicate(kind, v):
         return isinstance(v, list) and len(v) <= 3 and all(type(x) is int for x in v)
     if kind == "item":
         return v is None or isinstance(v, Item)
+    if kind == "item2":
+        from ..zoo04 import Item2
+        return v is None or isinstance(v, Item2)
     raise AssertionError(kind)
 
 
@@ -115,6 +128,9 @@ def to_spec(v):
     if isinstance(v, list):
         return {"t": "list", "vs": [to_spec(x) for x in v]}
     if isinstance(v, Item):
+        return {"t": "obj", "i": v.uid}
+    from ..zoo04 import Item2
+    if isinstance(v, Item2):
         return {"t": "obj", "i": v.uid}
     raise AssertionError(v)
 
@@ -169,9 +185,17 @@ def _gen_item(r, kind, fresh, invalid_rate, lookup=False, in_set=False):
                 {"t": "int", "v": 5}, {"t": "bad"}, {"t": "str", "v": "ab"}])
         return {"t": "list", "vs": [{"t": "int", "v": fresh()} for _ in range(r.randint(0, 3))]}
     if kind == "item":
-        if x < invalid_rate:
-            return r.choice([{"t": "int", "v": 3}, {"t": "str", "v": "ab"}])
+        if x < invalid_rate and not lookup:
+            return r.choice([{"t": "int", "v": 3}, {"t": "str", "v": "ab"}, {"t": "obj", "i": 10}])
+        if lookup:
+            return r.choice([{"t": "obj", "i": 0}, {"t": "obj", "i": 1}, {"t": "obj", "i": 2}])
         return r.choice([{"t": "obj", "i": 0}, {"t": "obj", "i": 1}, {"t": "obj", "i": 2},
+                         {"t": "bad"}])
+    if kind == "item2":
+        if x < invalid_rate:
+            # (an object of the key class is no value)
+            return r.choice([{"t": "int", "v": 3}, {"t": "obj", "i": 0}, {"t": "obj", "i": 1}])
+        return r.choice([{"t": "obj", "i": 10}, {"t": "obj", "i": 11}, {"t": "obj", "i": 12},
                          {"t": "bad"}])
     raise AssertionError(kind)
 
@@ -331,7 +355,10 @@ class Prop:
             if m is None:
                 on = t[:2]
                 m, ckind, ikind, bounds = self.resolve_model(model, on, (lo, hi))
-            if r.random() < 0.08 and not isinstance(on, list):
+            if on == "lb" and m is None:
+                # no legal value yet: only a whole-value assignment can give it one
+                op = self.gen_assign(r, on, fresh, invalid_rate, (2, 4))
+            elif r.random() < 0.08 and not isinstance(on, list):
                 op = self.gen_assign(r, on, fresh, invalid_rate, bounds)
             elif ckind == "list":
                 kinds = LIST_OPS_NOSORT if ikind[0] == "item" else LIST_OPS
@@ -411,7 +438,7 @@ class Prop:
     def initial_model(lo):
         return {"li": list(range(lo)), "lc": [], "ls": [], "ll": [], "lk": [], "ln": [],
                 "di": {}, "dl": {}, "si": set(), "sc": set(),
-                "ul": [], "ud": {}, "us": set()}
+                "ul": [], "ud": {}, "us": set(), "dn": {}, "lb": None}
 
     @staticmethod
     def resolve_model(model, on, li_bounds):
@@ -427,7 +454,9 @@ class Prop:
             return outer[keys[j % len(keys)]], "list", ("int",), (0, 3)
         ck = CONTAINERS[on][0]
         bounds = None
-        if on == "li":
+        if on == "lb":
+            bounds = (2, 4)
+        elif on == "li":
             bounds = li_bounds
         elif on == "ll":
             bounds = (0, 4)
@@ -441,7 +470,7 @@ class Prop:
         if k in ("restart", "fork"):
             return None, None, False
         m, ckind, ikind, bounds = self.resolve_model(model, on, li_bounds)
-        if m is None:
+        if m is None and not (on == "lb" and k in ("assign", "assign_bad", "reset")):
             return None, "skip", False
         if k == "imul" and on == "ll" and op["n"] >= 2:
             # would alias inner lists; restart/fork legitimately un-share them
@@ -476,6 +505,8 @@ class Prop:
 
     # ------------------------------------------------------------------ execution
     def own(self, h, name):
+        if name in FNAMES:
+            return self._f
         return self._u if name in UNAMES else h
 
     def resolve_sut(self, h, on):
@@ -502,6 +533,10 @@ class Prop:
         h = HOLDERS[bidx]()
         from ..zoo04 import UHolder
         self._u = UHolder()
+        from ..zoo04 import make_fholder, Item2
+        self._f = make_fholder()()
+        for n in range(10, 13):
+            OBJECTS[n] = Item2(uid=n)
         model = self.initial_model(lo)
         calls = []
 
@@ -515,7 +550,7 @@ class Prop:
 
         def attach(obj):
             for name in CONTAINERS:
-                if name in UNAMES:
+                if name in UNAMES or name in FNAMES:
                     continue
                 obj.on_trait_change(rec_otc, name)
                 obj.on_trait_change(rec_otc, name + "_items")
@@ -556,8 +591,15 @@ class Prop:
                 env.token("fork", op["how"])
                 continue
             on = op["on"]
-            target = self.resolve_sut(h, on)
-            mt = self.resolve_model(model, on, (lo, hi))[0]
+            if on == "lb" and model["lb"] is None:
+                if k not in ("assign", "assign_bad", "reset"):
+                    env.end_op()
+                    env.token("skip")
+                    continue
+                target, mt = "unset", "unset"
+            else:
+                target = self.resolve_sut(h, on)
+                mt = self.resolve_model(model, on, (lo, hi))[0]
             if (target is None) != (mt is None):
                 raise Violation("C04.contents", "container %r: model and object disagree on "
                                 "emptiness" % (on,), i)
@@ -669,6 +711,8 @@ class Prop:
                 out[k] = [list(x) for x in v]
             elif k == "dl":
                 out[k] = {a: list(b) for a, b in v.items()}
+            elif v is None:
+                out[k] = None
             else:
                 out[k] = type(v)(v)
         return out
@@ -685,8 +729,17 @@ class Prop:
 
     def check_all(self, h, model, i, op=None):
         for name, desc in CONTAINERS.items():
-            got = getattr(self.own(h, name), name)
             want = model[name]
+            if want is None:
+                # no legal value yet (the implicit default is shorter than minlen): the
+                # trait is unreadable - or reads as a list of legal length
+                got, e = sut(getattr, self.own(h, name), name)
+                if e is None and not (2 <= len(got) <= 4):
+                    raise Violation("C04.default-length",
+                                    "after %s: trait %r (minlen=2) reads as %r"
+                                    % (describe(op) if op else "construction", name, got), i)
+                continue
+            got = getattr(self.own(h, name), name)
             ck = desc[0]
             if ck == "list":
                 same = list(got) == want and all(type(a) is type(b) or isinstance(a, list)
@@ -733,6 +786,7 @@ class Prop:
 
     def cleanup(self):
         self._u = None
+        self._f = None
         CUR["env"] = None
         OBJECTS.clear()
 
